@@ -101,7 +101,27 @@ def src_example_text():
     return (fw.SRC / 'geophires_x' / REL[100]).read_text(encoding='UTF-8')
 
 
-def gen_session(rnd, ok_ids, bad_ids, length, hashseeds, mixes=(), src_content=None, hip_ids=()):
+MC_INPUTS = {'g': [[], [['Gradient 1', 'uniform', '62', '62']]], 'h': [[], [['Reservoir Temperature', 'uniform', '210', '210']]]}
+
+
+def mc_text(base_text, input_values):
+    """Input file of a Monte-Carlo iteration: the base file, a newline, one line per sampled input (the
+    'distributions' used here are uniform on [a, a]: the sample is a)."""
+    return base_text + '\n' + ''.join(f'{n}, {float(a)}\n' for n, _dist, a, _b in input_values)
+
+
+def mc_combos(contents, geo_bases, hip_bases):
+    """-> [(prog kind 'g'|'h', base content id, input values, id of the iteration content)]"""
+    out = []
+    for kind, bases in (('g', geo_bases), ('h', hip_bases)):
+        for b in bases:
+            for iv in MC_INPUTS[kind]:
+                contents.append(mc_text(contents[b], iv))
+                out.append((kind, b, iv, len(contents) - 1))
+    return out
+
+
+def gen_session(rnd, ok_ids, bad_ids, length, hashseeds, mixes=(), src_content=None, hip_ids=(), mcs=()):
     """One random history.  Paths 0..np-1 are files of the session, 60.. the targets of the relative names, higher
     ids are created by the library (getdict, getmix).  [src_content]: content id of the source tree's own
     Examples/salton_sea.txt (enables relative requests); [hip_ids]: HIP-RA input contents (enable HIP requests;
@@ -111,7 +131,7 @@ def gen_session(rnd, ok_ids, bad_ids, length, hashseeds, mixes=(), src_content=N
     written = {}
     cwd0 = rnd.randrange(ndirs)
     cwd = cwd0
-    is_hip = set(hip_ids)
+    is_hip = set(hip_ids) | {m[3] for m in mcs if m[0] == 'h'}
     geo = lambda: [q for q, c in written.items() if c not in is_hip]   # noqa: E731
 
     def newclient():
@@ -132,6 +152,17 @@ def gen_session(rnd, ok_ids, bad_ids, length, hashseeds, mixes=(), src_content=N
                 written[t] = content
             if written.get(t) not in is_hip:
                 ops.append(['get', rnd.randrange(nclients), p])
+        elif x < 0.09 and mcs:
+            # a Monte-Carlo work package: n iterations embedded in this process
+            kind, b, iv, cid = rnd.choice(mcs)
+            holders = [q for q, c in written.items() if c == b and q < 60]
+            if not holders:
+                holders = [rnd.randrange(npaths)]
+                ops.append(['write', holders[0], b])
+                written[holders[0]] = b
+            n = rnd.randint(2, 4)
+            ops.append(['mc', 'g' if kind == 'g' else rnd.choice([1, 2]), rnd.choice(holders), n, iv, list(range(nextp, nextp + n)), cid])
+            nextp += n
         elif x < 0.14 and hip_ids:
             k = rnd.choice([1, 1, 2])
             holders = [q for q, c in written.items() if c in is_hip]
@@ -260,7 +291,7 @@ class References:
         return {self.of(c)[1]: c for c in sorted(set(ids), reverse=True) if self.of(c)[0] == 'ret'}
 
 
-CONTENT_FIELD = {'write': 2, 'getdict': 3, 'getmix': 5}
+CONTENT_FIELD = {'write': 2, 'getdict': 3, 'getmix': 5, 'mc': 6}
 
 
 def map_contents(ops, f):
@@ -305,6 +336,8 @@ def hip_pairs(s):
                 c = files.get(rt.get((d, o[2]), o[2]))
                 if c is not None:
                     pairs.add((o[1], c))
+        elif o[0] == 'mc' and o[1] != 'g':
+            pairs.add((o[1], o[6]))
     return pairs
 
 
@@ -322,7 +355,7 @@ def ensure_refs(refs, s):
 # Coq terms
 # ------------------------------------------------------------------------------------------------------------
 def q_dir(d):
-    return {'S': 'DSrc', 'P': f'(DPkg {int(d[-1])})', 'D': f'(DUser {int(d[-1])})'}[d[0]]
+    return 'DSrc' if d[0] == 'S' else f'({"DPkg" if d[0] == "P" else "DUser"} {int(d[1])})'
 
 
 def q_arg(a):
@@ -343,33 +376,57 @@ def hipres(k, c):
 
 
 def expand(session, result, digest2content, canon=lambda c: c, hip_digest=None):
-    """-> (Coq ops, Coq observations, origin) with a getdict/getmix unfolded into Write + Get; origin[k] = index of
-    the operation the k-th model step came from.  Contents with the same reference result are interchangeable:
-    [canon] maps a content id to the representative of its class (the one [digest2content] names)."""
+    """-> (Coq ops, Coq observations, origin) with a getdict/getmix unfolded into Write + Get and a Monte-Carlo work
+    package into (Write; NewClient; Get; Delete) per iteration; origin[k] = index of the operation the k-th model step
+    came from.  Contents with the same reference result are interchangeable: [canon] maps a content id to the
+    representative of its class (the one [digest2content] names)."""
     ops, obs, origin = [], [], []
+    cmap, nmodel = [], 0     # harness client number -> model client number (the embedded MC clients count too)
     session = dict(session, ops=map_contents(session['ops'], canon))
-    for i, (op, b) in enumerate(zip(session['ops'], result['obs'])):
-        kind = op[0]
-        o = b['out']
-        if o[0] == 'ret' and kind == 'hip':
-            out = f'(Returned {(hip_digest or {}).get((op[1], o[1]), UNKNOWN)} false)'
-        elif o[0] == 'ret':
-            out = f'(Returned {digest2content.get(o[1], UNKNOWN)} {"true" if o[2] else "false"})'
-        else:
-            out = {'raised': 'Raised', 'noclient': 'NoSuchClient', 'done': 'Done'}[o[0]]
-        pre, post = (q_dir(b['cb']), q_argv(b['ab'])), (q_dir(b['ca']), q_argv(b['aa']))
-        if kind in ('getdict', 'getmix'):
-            ops.append(f'Write {op[2]} {op[CONTENT_FIELD[kind]]}')
-            obs.append(f'mkObs {pre[0]} {pre[1]} {pre[0]} {pre[1]} Done')
-            origin.append(i)
-        ops.append({'newclient': lambda: f'NewClient {"true" if op[1] else "false"}',
-                    'get': lambda: f'Get {op[1]} {op[2]}', 'getdict': lambda: f'Get {op[1]} {op[2]}',
-                    'getmix': lambda: f'Get {op[1]} {op[2]}',
-                    'write': lambda: f'Write {op[1]} {op[2]}', 'delete': lambda: f'Delete {op[1]}',
-                    'chdir': lambda: f'Chdir (DUser {op[1]})', 'setargv': lambda: f'SetArgv {q_tokens(op[1])}',
-                    'cli': lambda: f'Cli {op[1]}', 'hip': lambda: f'HipGet {op[1]} {op[2]}'}[kind]())
+
+    def q_out(o, hipk=None):
+        if o[0] == 'ret' and hipk is not None:
+            return f'(Returned {(hip_digest or {}).get((hipk, o[1]), UNKNOWN)} false)'
+        if o[0] == 'ret':
+            return f'(Returned {digest2content.get(o[1], UNKNOWN)} {"true" if o[2] else "false"})'
+        return {'raised': 'Raised', 'noclient': 'NoSuchClient', 'done': 'Done'}[o[0]]
+
+    def emit(i, op_term, b, out, still=None):
+        pre = (q_dir(b['cb']), q_argv(b['ab'])) if still != 'post' else (q_dir(b['ca']), q_argv(b['aa']))
+        post = pre if still else (q_dir(b['ca']), q_argv(b['aa']))
+        ops.append(op_term)
         obs.append(f'mkObs {pre[0]} {pre[1]} {post[0]} {post[1]} {out}')
         origin.append(i)
+
+    for i, (op, b) in enumerate(zip(session['ops'], result['obs'])):
+        kind, o = op[0], b['out']
+        ci = lambda: cmap[op[1]] if op[1] < len(cmap) else 900 + op[1]   # noqa: E731
+        if kind == 'mc':
+            for rec, pid in zip(o[1], op[5]):
+                if rec['out'][0] == 'raised' and 'before the embedded client' in rec['out'][2]:
+                    continue   # the work package failed while preparing its input file: no request was made
+                emit(i, f'Write {pid} {op[6]}', rec, 'Done', still='pre')
+                if op[1] == 'g':
+                    emit(i, 'NewClient true', rec, 'Done', still='pre')
+                    emit(i, f'Get {nmodel} {pid}', rec, q_out(rec['out']))
+                    nmodel += 1
+                else:
+                    emit(i, f'HipGet {op[1]} {pid}', rec, q_out(rec['out'], op[1]))
+                if rec['out'][0] == 'ret':
+                    emit(i, f'Delete {pid}', rec, 'Done', still='post')
+            continue
+        if kind in ('getdict', 'getmix'):
+            emit(i, f'Write {op[2]} {op[CONTENT_FIELD[kind]]}', b, 'Done', still='pre')
+        if kind == 'newclient':
+            cmap.append(nmodel)
+            nmodel += 1
+        term = {'newclient': lambda: f'NewClient {"true" if op[1] else "false"}',
+                'get': lambda: f'Get {ci()} {op[2]}', 'getdict': lambda: f'Get {ci()} {op[2]}',
+                'getmix': lambda: f'Get {ci()} {op[2]}',
+                'write': lambda: f'Write {op[1]} {op[2]}', 'delete': lambda: f'Delete {op[1]}',
+                'chdir': lambda: f'Chdir (DUser {op[1]})', 'setargv': lambda: f'SetArgv {q_tokens(op[1])}',
+                'cli': lambda: f'Cli {op[1]}', 'hip': lambda: f'HipGet {op[1]} {op[2]}'}[kind]()
+        emit(i, term, b, q_out(o, op[1] if kind == 'hip' else None))
     return ops, obs, origin
 
 
@@ -423,13 +480,14 @@ def impure_steps(session, result, refs):
     by_digest = {refs.of(c)[1]: refs.of(c) for c in geo_contents(session) if refs.of(c)[0] == 'ret'}
     hip = {(k, refs.of(c, k)[1]): refs.of(c, k) for k, c in hip_pairs(session) if refs.of(c, k)[0] == 'ret'}
     for i, (op, b) in enumerate(zip(session['ops'], result['obs'])):
-        o = b['out']
-        if o[0] == 'ret' and not o[2]:
-            ref = hip.get((op[1], o[1])) if op[0] == 'hip' else by_digest.get(o[1])
-            if ref is None:
-                bad.append((i, 'result matches no reference result'))
-            elif (o[3], o[4]) != (ref[3], ref[4]):
-                bad.append((i, 'report text / JSON output differs from the reference run of the same content'))
+        hipk = op[1] if op[0] == 'hip' or (op[0] == 'mc' and op[1] != 'g') else None
+        for o in ([r['out'] for r in b['out'][1]] if op[0] == 'mc' else [b['out']]):
+            if o[0] == 'ret' and not o[2]:
+                ref = hip.get((hipk, o[1])) if hipk else by_digest.get(o[1])
+                if ref is None:
+                    bad.append((i, 'result matches no reference result'))
+                elif (o[3], o[4]) != (ref[3], ref[4]):
+                    bad.append((i, 'report text / JSON output differs from the reference run of the same content'))
     return bad
 
 
@@ -440,7 +498,9 @@ REL_KEYS = {'client': 'relative-path:client:resolved-against-source-dir-not-call
 def violation_key(session, result, i, code):
     op, o = session['ops'][i], result['obs'][i]['out']
     what = {'ret': 'hit' if len(o) > 2 and o[2] else 'ok', 'raised': 'raised'}.get(o[0], o[0])
-    who = {'cli': 'cli', 'hip': 'hip'}.get(op[0], 'client')
+    who = {'cli': 'cli', 'hip': 'hip', 'mc': 'mc-embedded-' + ('client' if op[1] == 'g' else 'hip')}.get(op[0], 'client')
+    if op[0] == 'mc':
+        return STALE_KEY if code == 'stale' else f'{code}:{who}'
     if code == 'stale':
         return STALE_KEY
     if code == 'rel':
@@ -476,6 +536,8 @@ def executable(ops, contents):
             if files.get(o[3]) is None or contents[o[5]] != files[o[3]] + ''.join(f'{k}, {v}\n' for k, v in o[4]):
                 return False
             files[o[2]] = contents[o[5]]
+        elif o[0] == 'mc' and (files.get(o[2]) is None or contents[o[6]] != mc_text(files[o[2]], o[4])):
+            return False
     return True
 
 
